@@ -117,6 +117,7 @@ struct Tally {
     skipped_ambiguous: u64,
     reader: u64,
     reader_unknown: u64,
+    history: u64,
 }
 
 fn writer_side<T: crate::dynspec::Spec>(t: &mut Tape, spec: &SpecTable, chain: &[u64], tl: &mut Tally) -> Result<(), String> {
@@ -124,6 +125,33 @@ fn writer_side<T: crate::dynspec::Spec>(t: &mut Tape, spec: &SpecTable, chain: &
     let mut open: Vec<u64> = Vec::new();
     let chain_has_global = |open: &[u64]| open.iter().any(|id| spec.get(*id).map(|e| e.is_global()).unwrap_or(false));
     for step in 0..=chain.len() {
+        // the verdict depends on the open chain and the tag alone, not on what was written (or refused) before: now and then a whole
+        // Full master goes first, acceptable or with a child that is not allowed in it; the offers that follow must come out the same
+        if t.chance(1, 3) {
+            let ms: Vec<&Elem> = spec.elems.iter().filter(|m| m.ty == Ty::Master && ref_match(&m.path, &open)).collect();
+            if !ms.is_empty() {
+                let m = ms[t.below(ms.len())];
+                let mut inner = open.clone();
+                inner.push(m.id);
+                let n = 1 + t.below(3);
+                let mut ch = super::c19::good_children(t, spec, &inner, n);
+                let bad = if t.chance(1, 2) { super::c19::bad_child(t, spec, &inner) } else { None };
+                let want_ok = bad.is_none();
+                if let Some(b) = bad {
+                    ch.push(b);
+                }
+                let r = w.apply(&WOp::Write(Flat::Full(m.id, ch.clone()), WOpt::Default));
+                tl.units += 1;
+                tl.nontrivial += 1;
+                tl.history += 1;
+                match (&r, want_ok) {
+                    (Ok(()), true) => tl.aa += 1,
+                    (Err(WErr::UnexpectedTag { .. }), false) => tl.rr += 1,
+                    (Ok(()), false) => return Err(format!("writer ACCEPTED the Full master {:#x} under {:x?} although its last child {:?} is not allowed in it", m.id, open, ch.last())),
+                    (Err(er), _) => return Err(format!("writer: Full master {:#x} with children {:?} under {:x?}: expected {}, got {:?}", m.id, ch, open, if want_ok { "Ok" } else { "UnexpectedTag" }, er)),
+                }
+            }
+        }
         // offer every element under the current chain
         for e in &spec.elems {
             let want = ref_match(&e.path, &open);
@@ -310,7 +338,7 @@ fn stage(i: &Input, c: &mut Case) -> Result<(), String> {
         set_current(s.clone());
         s
     };
-    let mut tl = Tally { units: 0, nontrivial: 0, aa: 0, rr: 0, skipped_ambiguous: 0, reader: 0, reader_unknown: 0 };
+    let mut tl = Tally { units: 0, nontrivial: 0, aa: 0, rr: 0, skipped_ambiguous: 0, reader: 0, reader_unknown: 0, history: 0 };
     let nchains = 5;
     let mut chains = Vec::new();
     for _ in 0..nchains {
@@ -339,6 +367,7 @@ fn stage(i: &Input, c: &mut Case) -> Result<(), String> {
     c.label_n("reader_decisions", tl.reader);
     c.label_n("reader_decisions_with_unknown_size_chain", tl.reader_unknown);
     c.label_n("writer_decisions", tl.units - tl.reader);
+    c.label_n("writer_full_master_before_the_offers", tl.history);
     for _ in 0..tl.skipped_ambiguous {
         c.exclude("tag_both_child_and_closer_or_global_ancestor_of_unknown_master");
     }
